@@ -67,12 +67,24 @@ static int mu_try_acquire_after_timeout_or_cancel (nsync_mu *mu, lock_type *l_ty
 						   waiter *w, uint32_t remove_count) {
 	int success = 0;
 	unsigned spin_attempts = 0;
+	uint32_t zero_to_acquire = MU_WZERO_TO_ACQUIRE;
 	uint32_t old_word = ATM_LOAD (&mu->word);
 	/* Spin until we can acquire the spinlock and a writer lock on *mu. */
-	while ((old_word&(MU_WZERO_TO_ACQUIRE|MU_SPINLOCK)) != 0 ||
+	while ((old_word&(zero_to_acquire|MU_SPINLOCK)) != 0 ||
 	       !ATM_CAS_ACQ (&mu->word, old_word,
 			     (old_word+MU_WADD_TO_ACQUIRE+MU_SPINLOCK) &
 			     ~MU_WCLEAR_ON_ACQUIRE)) {
+		if (ATM_LOAD_ACQ (&w->nw.waiting) == 0) {
+			/* *w was woken while this thread was spinning, so this
+			   thread is now the designated waker:  only the
+			   constraints of mutual exclusion should stop it (see
+			   nsync_mu_lock_slow_()).  In particular it must not
+			   wait for MU_LONG_WAIT to be cleared, because the
+			   long waiter may be asleep behind this wakeup, and
+			   no other thread will be woken until this one has
+			   acquired and released *mu.  */
+			zero_to_acquire = MU_ANY_LOCK;
+		}
 		/* Failed to acquire.  If we can, set the MU_WRITER_WAITING bit
 		   to avoid being starved by readers. */
 		if ((old_word & (MU_WRITER_WAITING | MU_SPINLOCK)) == 0) {
